@@ -45,7 +45,15 @@ fn check_n(n: usize, rec: &mut Rec) {
     } else if n % 15 == 8 {
         // escape hatch on a request whose only transfer-encoding is not a framing header
         rec.cov("chunked/despite-method-with-gzip");
-        crate::drive::body_sender_ex(None, false, false, 2 | 1024 | (((n / 15) % 4) as u16) << 5)
+        crate::drive::body_sender_ex(None, false, false, 2 | 1024 | (((n / 15) % 4) as u32) << 5)
+    } else if n % 15 == 3 || n % 15 == 6 {
+        // the body is sent after an Expect handshake (the caller gave up waiting / the 100 came)
+        rec.cov("chunked/after-expect-handshake");
+        crate::drive::body_sender_ex(None, false, false, if n % 15 == 3 { 8 } else { 16 })
+    } else if n % 15 == 9 {
+        // Host spelled out, then a content-length, another field, and only then the chunked coding
+        rec.cov("chunked/coding-named-behind-length-and-other-fields");
+        crate::drive::body_sender_ex(None, true, false, 1 | 4 | 65536)
     } else if n % 15 == 14 {
         // the head went out one line per write, the empty line alone in a write of its own
         rec.cov("chunked/head-line-by-line");
@@ -104,7 +112,7 @@ fn check_n(n: usize, rec: &mut Rec) {
     }
     // length delimited: max is n itself and n bytes go through in one write
     // (the sender in turn: plain, with the Host spelled out by the caller, with the head written line by line, both)
-    let lv = [0u16, 1, 8192, 1 | 8192][n % 4];
+    let lv = [0u32, 1, 8192, 1 | 8192][n % 4];
     rec.cov(["length/sender-plain", "length/sender-own-host", "length/sender-head-line-by-line", "length/sender-own-host-line-by-line"][n % 4]);
     let mut s = match crate::drive::body_sender_ex(Some(n as u64 + 7), false, false, lv) {
         Ok(s) => s,
